@@ -247,7 +247,7 @@ w("""
 //@   let c = t.client
 //@   assigns c.wireN, c.wire, c.tryN, c.try, anycalls(), closed(t.TransactionBase.done), c.messageHandlers.dispatchN
 //@   ensures [C16,C27] dispatched_once_when_resolvable: c.messageHandlers.dispatchN == old(c.messageHandlers.dispatchN) || c.messageHandlers.dispatchN == old(c.messageHandlers.dispatchN) + 1
-//@   ensures [C17] always_confirms: c.tryN == old(c.tryN) + 1 && istype(c.try[old(c.tryN)], *pkts1.Pubcomp) && c.try[old(c.tryN)].(*pkts1.Pubcomp).messageID == pubrel.messageID
+//@   ensures [C17,C16] always_confirms: c.tryN == old(c.tryN) + 1 && istype(c.try[old(c.tryN)], *pkts1.Pubcomp) && c.try[old(c.tryN)].(*pkts1.Pubcomp).messageID == pubrel.messageID
 //@   ensures [C17] completes_unless_it_reports_an_error: finished(t.TransactionBase) || result != nil
 """ % dict(FIN=FIN))
 
